@@ -556,6 +556,7 @@ func (c *Collection) writeWithXattrs(
 					return nil, sgbucket.ErrKeyExists
 				}
 				e.xattrs = nil // xattrs are cleared whenever resurrecting a tombstone
+				e.exp = 0      // ...and a tombstone has no expiry for PreserveExpiry to keep
 			} else if opts.insertDoc {
 				return nil, sgbucket.ErrKeyExists
 			}
